@@ -17,6 +17,19 @@ import (
 )
 
 func init() {
+	// C03: with peers that are slow to take what they are given (a request handed to a connection
+	// is not yet written when its context sends again), every frame on the wire still belongs to
+	// one request - its id and bytes never change after the fact - and Recv returns the reply to
+	// the current request or nothing
+	vexplore.Register("C03", func(tier string) []*vexplore.Scenario {
+		d := map[string]int{"quick": 5, "thorough": 6}[tier]
+		return []*vexplore.Scenario{
+			{Name: fmt.Sprintf("req-slow-peer-hist-D%d", d), Mode: "hist", Reset: kit.ResetGlobals, Body: func() { SlowPeerHist(d) }},
+		}
+	})
+}
+
+func init() {
 	vexplore.Register("C04", func(tier string) []*vexplore.Scenario {
 		d := 5
 		if tier == "thorough" {
